@@ -9,6 +9,7 @@ CONSTANTS
   Ops <- MC_OpsElect
   ReqVers <- MC_V4
   Lazies <- MC_Eager
+  Dev <- MC_DevVersionless
   Known <- MC_KnownDesign
 CHECK_DEADLOCK FALSE
 INVARIANT NoW_versionless
